@@ -116,38 +116,39 @@ type LoopSpec struct {
 }
 
 type Engine struct {
-	sc           *sortCtx
-	prog         *ssa.Program
-	decls        []string
-	declared     map[string]bool
-	hsort        map[string]string // heap name -> sort (registry of every heap touched)
-	obls         []Obligation
-	fresh        int
-	contracts    map[string]*Contract // key: fn.String()
-	preds        map[string]predDef
-	allocN       int
-	epochN       int
-	inlineDepth  int
-	cellClo      map[string]*closureVal // func-typed cell (by location term) -> closure stored there
-	log          []string
-	havocs       map[string]bool // callee names havocked (for the evidence file)
-	assumedStd   map[string]bool // std functions modelled by an assumed contract
-	strLits      map[string]string
-	fnName       string
-	nOrd         map[string]int
-	tier         string
-	findings     map[string][]Finding // group -> known findings (witness split)
-	curFrame     *frame
-	paramSyms    []paramSym
-	rootPre      *State
-	heapAlias    map[string]string
-	fnIndex      map[string]*ssa.Function
-	readLog      map[string]bool   // when non-nil, heapByName records the heaps it is asked for
-	opaqueSig    map[string]string // opaque predicate -> declared uninterpreted symbol
-	sumInst      map[string]bool   // ghostsum instances whose defining axioms were emitted
-	derivedCache map[*Contract][2][]Clause
-	derivedSteps map[*Contract]map[int][]Clause
-	bitsSyms     map[string]string // float parameter term -> symbol holding its bit pattern (math.Float32bits)
+	freshLo, freshHi string // allocation window of the callee whose post-conditions are being assumed
+	sc               *sortCtx
+	prog             *ssa.Program
+	decls            []string
+	declared         map[string]bool
+	hsort            map[string]string // heap name -> sort (registry of every heap touched)
+	obls             []Obligation
+	fresh            int
+	contracts        map[string]*Contract // key: fn.String()
+	preds            map[string]predDef
+	allocN           int
+	epochN           int
+	inlineDepth      int
+	cellClo          map[string]*closureVal // func-typed cell (by location term) -> closure stored there
+	log              []string
+	havocs           map[string]bool // callee names havocked (for the evidence file)
+	assumedStd       map[string]bool // std functions modelled by an assumed contract
+	strLits          map[string]string
+	fnName           string
+	nOrd             map[string]int
+	tier             string
+	findings         map[string][]Finding // group -> known findings (witness split)
+	curFrame         *frame
+	paramSyms        []paramSym
+	rootPre          *State
+	heapAlias        map[string]string
+	fnIndex          map[string]*ssa.Function
+	readLog          map[string]bool   // when non-nil, heapByName records the heaps it is asked for
+	opaqueSig        map[string]string // opaque predicate -> declared uninterpreted symbol
+	sumInst          map[string]bool   // ghostsum instances whose defining axioms were emitted
+	derivedCache     map[*Contract][2][]Clause
+	derivedSteps     map[*Contract]map[int][]Clause
+	bitsSyms         map[string]string // float parameter term -> symbol holding its bit pattern (math.Float32bits)
 }
 
 type predDef struct {
@@ -450,6 +451,9 @@ func (e *Engine) preBound(v Val, depth int) {
 	switch u := v.typ.Underlying().(type) {
 	case *types.Pointer:
 		e.decls = append(e.decls, fmt.Sprintf("(assert (< %s alloc0))", v.term))
+	case *types.Map:
+		// a map that existed when the function was entered is not one it makes later
+		e.decls = append(e.decls, fmt.Sprintf("(assert (and (>= %s 0) (< %s alloc0)))", v.term, v.term))
 	case *types.Slice:
 		e.decls = append(e.decls, fmt.Sprintf("(assert (< (s_base %s) alloc0))", v.term))
 		e.assumeRange("true", v)
@@ -461,7 +465,7 @@ func (e *Engine) preBound(v Val, depth int) {
 		for i := 0; i < u.NumFields(); i++ {
 			ft := u.Field(i).Type()
 			switch ft.Underlying().(type) {
-			case *types.Pointer, *types.Slice, *types.Struct:
+			case *types.Pointer, *types.Slice, *types.Struct, *types.Map:
 				e.preBound(Val{term: fmt.Sprintf("(%s_f%d %s)", sn, i, v.term), typ: ft}, depth+1)
 			}
 		}
